@@ -101,7 +101,7 @@ def main():
     ids = [json.loads(l)["id"] for l in open(os.path.join(ROOT, "properties.jsonl"))]
     old = json.load(open(os.path.join(ROOT, "MANIFEST.json")))
     hooks = subprocess.run(["git", "-C", "/repo", "log", "--format=%h %s"], capture_output=True, text=True).stdout.splitlines()
-    hook_commits = [l.split()[0] for l in hooks if l.split(" ", 1)[1].startswith("verif hooks:")]
+    hook_commits = [l.split()[0] for l in hooks if l.split(" ", 1)[1].startswith("verif hook")]
     checks, rules = [], {}
     for pid in ids:
         if pid not in props or pid not in T:
